@@ -1,5 +1,6 @@
 import errno
 import os
+import select
 import sys
 
 from tornado import ioloop
@@ -95,14 +96,32 @@ class Redirector(object):
         if fd in self.pipes:
             del self.pipes[fd]
 
+    def _drain(self, fd, name, process):
+        # what the process wrote and the loop has not read yet would be
+        # lost with the pipe; at most one pipe capacity can be pending and
+        # reading what poll() announces never blocks
+        if fd not in self._active or not hasattr(select, 'poll'):
+            return
+        poller = select.poll()
+        poller.register(fd, select.POLLIN)
+        for _ in range(65536 // self.buffer + 1):
+            if not poller.poll(0):
+                break
+            data = os.read(fd, self.buffer)
+            if len(data) == 0:
+                break
+            self.redirect[name]({'data': data, 'pid': process.pid,
+                                 'name': name})
+
     def remove_redirections(self, process):
-        for _, pipe in self.get_process_pipes(process):
+        for name, pipe in self.get_process_pipes(process):
             try:
                 fileno = pipe.fileno()
             except ValueError:
                 # the pipe was already closed
                 pass
             else:
+                self._drain(fileno, name, process)
                 self.remove_fd(fileno)
         process.redirected = False
 
